@@ -38,12 +38,28 @@ RULE = (
     "inside a pipeline, in pipelines of 2-4 weight-only steps: weighters, weight-target scalers, user transformers that do "
     "not return the matrix) on all-int64 and all-uint64 matrices (built without passing through float) with one or more "
     "criteria of odd values in 2**53 .. 2**63 (2**64 for uint64), some negative for int64 - the matrix must come back with "
-    "the same integer dtype and the same bytes. Both families appear in every run. One extra case per run holds the table extracted from the tree (class x target -> rewritten keys). "
+    "the same integer dtype and the same bytes. Both families appear in every run. FILTERS OVER CELLS THAT ARE NOT FINITE "
+    "(a fixed share of every run): every by-criteria filter class (Filter, FilterGT/GE/LT/LE/EQ/NE, FilterIn/NotIn) x {alone, "
+    "alone inside a pipeline, filter -> (weight-only step ->) imputer, among weight-only steps} x {NaN, +-inf, both} on "
+    "matrices (>= 4 alternatives, >= 3 criteria) where at least one SURVIVING row holds a NaN / +inf / -inf cell in a "
+    "criterion the filter does not look at (sometimes also in one it looks at, and in dropped rows); the surviving rows must "
+    "come back bit-identical (NaN stays NaN, inf stays inf). In these pipelines every step is ALSO applied by itself to the "
+    "output of the steps before it and judged against that input (the filter step of filter -> imputer is judged on what the "
+    "filter returned, not on what the imputer made of it). LABELS THAT ARE NOT STRINGS (a fixed share of every run): every "
+    "built-in class x target, pipelines of 1-4 steps and user transformers on matrices whose alternatives and / or criteria "
+    "are whole numbers >= 1000 (python int, numpy int32 / int64 / uint16) or floats (python float, numpy float32 / float64; "
+    "whole or with a fractional part), passed to mkdm as a list or as an array; the keys of a by-criteria filter must be "
+    "strings, so under such a filter the alternatives are the non-string ones (or the criteria are and the filter, with "
+    "ignore_missing_criteria, finds none of its keys). Labels are read from `dm.alternatives` / `dm.criteria` and compared "
+    "with values AND types (2019 is not '2019'). One extra case per run holds the table extracted from the tree (class x target -> rewritten keys). "
     "Non-trivial: the transform answered and changed at least one part; distinct by case hash."
 )
 ASSUMPTIONS = [
-    "criteria and alternative labels are unique strings (mkdm does not enforce it; the generator does)",
-    "matrix cells and weights are finite, except the missing cells (NaN) given to imputers",
+    "criteria and alternative labels are unique and all of ONE type: strings, whole numbers >= 1000 or floats that are not a "
+    "position 0..k-1 (mkdm does not enforce it; the generator does; a label equal to a position is ambiguous by design in "
+    "`dm.alternatives[k]`)",
+    "weights are finite; matrix cells are finite except the missing cells (NaN) given to imputers and the NaN / +-inf cells "
+    "given to by-criteria filters (which have no numeric domain: they only compare)",
     "a user function made into a transformer returns well-shaped parts and, if it returns concrete dtypes, dtypes that store "
     "its matrix exactly ('It is the function's responsibility to maintain compatibility', extend.py)",
     "dtypes are not named by the property text: they are judged against the model's declared sets only (correspondence)",
@@ -67,6 +83,11 @@ IMPUTERS = ["SimpleImputer", "KNNImputer", "IterativeImputer"]
 # what the callable of a function-based `Filter` answers with: a boolean mask, or a 0/1 mask that is not boolean
 # (np.where(cond, 1, 0), cond.astype(int / uint8 / float)), or the 0/1 indicator criterion itself (lambda e: e)
 MASK_FORMS = ["bool", "where", "astype", "uint8", "float", "indicator"]
+# cells that are not finite in rows a by-criteria filter keeps
+NF_WHAT = ["nan", "inf", "both"]
+NF_SHAPES = ["alone", "alone-in-pipeline", "then-imputer", "among-weight-steps"]
+# labels that are not strings: python numbers and numpy scalars
+LABEL_KINDS = ["int", "float", "int32", "int64", "uint16", "float32", "float64"]
 FAMILY = {"scaler": "targetSwitch", "cenit": "cenit", "weighter": "weighter", "inverter": "inverter", "filter": "filter",
           "nondom": "nonDominated", "imputer": "imputer", "user": "user"}
 
@@ -581,7 +602,115 @@ def _bigint_cases(rng, rounds):
     return out
 
 
-def _random_cases(rng, n_sweeps, n_user, n_pipe, n_mask=1, n_seq=(60, 40), n_fixed=1, n_big=2):
+def _nonfinite_filter_case(rng, cls, shape, what):
+    """a by-criteria filter over a matrix where rows that SURVIVE hold NaN / +inf / -inf cells in criteria the filter does
+    not look at (sometimes also in one it looks at, and in dropped rows). The cells are written None / "inf" / "-inf"."""
+    spec = None
+    for _ in range(60):
+        dm = _dm(rng, positive=rng.random() < 0.6, min_m=4, min_n=3, dtypes=rng.choice(["mixed", "mixed", "float"]))
+        if cls in ("EQ", "In") or rng.random() < 0.4:  # more ties inside the criteria: EQ / In keep several rows
+            for row_i in range(1, len(dm["matrix"])):
+                for j in range(len(dm["criteria"])):
+                    if rng.random() < 0.45:
+                        dm["matrix"][row_i][j] = dm["matrix"][rng.randrange(row_i)][j]
+        spec = _filter_spec(rng, dm, cls, keep_at_least=2)
+        if spec is not None:
+            break
+    if spec is None:
+        return None
+    crits, m = dm["criteria"], len(dm["matrix"])
+    looked = [crits.index(c) for c, _ in spec["conds"] if c in crits]
+    free = [j for j in range(len(crits)) if j not in looked]
+    surv = _survivors(dm, spec)  # decided on the finite cells of the criteria the filter looks at
+    dropped = [i for i in range(m) if i not in surv]
+    pool = {"nan": [None], "inf": ["inf", "-inf"], "both": [None, "inf", "-inf"]}[what]
+    first = [None, rng.choice(["inf", "-inf"])] if what == "both" else []
+    rng.shuffle(first)
+
+    def put(i, j):
+        if dm["dtypes"][j] != "float64":  # NaN / inf live in float64 criteria
+            dm["dtypes"][j] = "float64"
+            for r in dm["matrix"]:
+                r[j] = float(r[j])
+        dm["matrix"][i][j] = first.pop() if first else rng.choice(pool)
+
+    j0 = rng.choice(free)
+    for j in [j0] + [j for j in free if j != j0 and rng.random() < 0.5]:
+        # at least one surviving row gets such a cell, and one keeps a finite value (a later imputer has something to read)
+        for i in rng.sample(surv, rng.randint(1, len(surv) - 1)):
+            put(i, j)
+        for i in dropped:
+            if rng.random() < 0.3:
+                put(i, j)
+    if shape != "then-imputer" and rng.random() < 0.3:  # ... and one in a criterion the filter compares
+        put(rng.randrange(m), rng.choice(looked) if looked else j0)
+    steps = [spec]
+    if shape == "then-imputer":
+        icls = rng.choice(IMPUTERS)
+        steps = [spec] + ([_weight_only_step(rng)] if rng.random() < 0.3 else []) + [{"k": "imputer", "cls": icls, "params": _imputer_params(rng, icls)}]
+    elif shape == "among-weight-steps":
+        before = [_weight_only_step(rng) for _ in range(rng.randint(0, 2))]
+        after = [_weight_only_step(rng) for _ in range(rng.randint(0 if before else 1, 2))]
+        steps = before + [spec] + after
+    dm["family"] = "non-finite-cells"
+    return {"dm": dm, "steps": steps, "pipe": shape != "alone", "stagewise": len(steps) > 1, "nonfinite": [cls, shape, what]}
+
+
+def _nonfinite_filter_cases(rng, rounds):
+    """every by-criteria filter class x shape x kind of non-finite cell (an imputer refuses inf: NaN only before one)"""
+    out = []
+    for _ in range(rounds):
+        for cls in BYCRIT:
+            for shape in NF_SHAPES:
+                for what in (["nan"] if shape == "then-imputer" else NF_WHAT):
+                    c = _nonfinite_filter_case(rng, cls, shape, what)
+                    if c is not None:
+                        out.append(c)
+    return out
+
+
+def _nonstring_labels(rng, k, kind):
+    """k distinct labels of one non-string kind, none of them equal to a position 0..k-1; floats are dyadic (exact in float32)"""
+    if kind in ("int", "int32", "int64", "uint16"):
+        return G.int_labels(rng, k, rng.choice([1000, 2000, 40000] if kind == "uint16" else [1000, 2000, 10 ** 6]))
+    base = rng.choice([0, 1000, 2000])
+    fracs = [0.5, 0.25, 0.125, 0.75] if base == 0 or rng.random() < 0.6 else [0.0]  # 2019.0 is a label too
+    return [float(base + i) + rng.choice(fracs) for i in rng.sample(range(0, max(k, 1) * 3), k)]
+
+
+def _relabel(rng, case, which):
+    """give the case's matrix alternatives and / or criteria that are not strings"""
+    dm = case["dm"]
+    byc = [s for s in case["steps"] if s["k"] == "filter"]
+    if byc and which != "alternatives":
+        # the keys of a by-criteria filter must be strings: numeric criteria only when the filter tolerates finding none
+        which = which if all(s["ignore"] for s in byc) and rng.random() < 0.5 else "alternatives"
+    kinds = {}
+    for part in (["alternatives", "criteria"] if which == "both" else [which]):
+        kind = rng.choice(LABEL_KINDS)
+        dm[part] = _nonstring_labels(rng, len(dm[part]), kind)
+        kinds[part] = [kind, rng.choice(["list", "array"])]
+    dm["label_kinds"] = kinds
+    case["nonstring_labels"] = sorted("%s:%s" % (p, k[0]) for p, k in kinds.items())
+    return case
+
+
+def _nonstring_label_cases(rng, rounds, n_pipe, n_user):
+    """every built-in class x target (rounds times), pipelines and user transformers over non-string labels"""
+    out = []
+    which = ["alternatives", "criteria", "both"]
+    for r in range(rounds):
+        for i, c in enumerate(_every_builtin(rng)):
+            out.append(_relabel(rng, c, which[(r + i) % 3]))
+    for i in range(n_pipe):
+        out.append(_relabel(rng, _pipeline(rng), which[i % 3]))
+    for i in range(n_user):
+        dm, spec = _single(rng, "user")
+        out.append(_relabel(rng, {"dm": dm, "steps": [spec], "pipe": rng.random() < 0.33}, which[i % 3]))
+    return out
+
+
+def _random_cases(rng, n_sweeps, n_user, n_pipe, n_mask=1, n_seq=(60, 40), n_fixed=1, n_big=2, n_nonfinite=1, n_labels=(3, 30, 20)):
     cases = []
     for _ in range(n_sweeps):
         cases.extend(_every_builtin(rng))
@@ -595,17 +724,22 @@ def _random_cases(rng, n_sweeps, n_user, n_pipe, n_mask=1, n_seq=(60, 40), n_fix
         cases.append({"dm": dm, "steps": [spec], "pipe": rng.random() < 0.33})
     for _ in range(n_pipe):
         cases.append(_pipeline(rng))
+    # fixed shares of every run (their own loops and counts): cells that are not finite under by-criteria filters, labels
+    # that are not strings
+    cases.extend(_nonfinite_filter_cases(rng, n_nonfinite))
+    cases.extend(_nonstring_label_cases(rng, *n_labels))
     return cases
 
 
 def gen(ctx):
     rng = ctx.rng
     return [{"table": True}] + _random_cases(rng, ctx.n(5, 70), ctx.n(70, 1000), ctx.n(110, 1600), ctx.n(2, 20),
-                                             (ctx.n(70, 900), ctx.n(50, 600)), ctx.n(2, 12), ctx.n(3, 20))
+                                             (ctx.n(70, 900), ctx.n(50, 600)), ctx.n(2, 12), ctx.n(3, 20), ctx.n(1, 8),
+                                             (ctx.n(3, 24), ctx.n(30, 300), ctx.n(20, 200)))
 
 
 def search_gen(ctx):
-    return _random_cases(ctx.rng, 12, 150, 250, 3, (150, 100), 3, 4)
+    return _random_cases(ctx.rng, 12, 150, 250, 3, (150, 100), 3, 4, 2, (6, 60, 40))
 
 
 # --------------------------------------------------------------------------- implementation side
@@ -629,6 +763,22 @@ def _mask_fn(v):
     return lambda e: cond(e).astype(to)
 
 
+_CELL = {None: np.nan, "inf": np.inf, "-inf": -np.inf}  # how a case writes the cells JSON has no number for
+
+
+def _labels_in(d, part):
+    """the labels handed to mkdm: strings as they are; non-string ones as python numbers or numpy scalars of the kind the
+    case names, in a list or in an array"""
+    kind = (d.get("label_kinds") or {}).get(part)
+    vals = list(d[part])
+    if not kind:
+        return vals
+    k, form = kind
+    to = {"int": int, "float": float}.get(k) or getattr(np, k)
+    vals = [to(v) for v in vals]
+    return np.array(vals) if form == "array" else vals
+
+
 def build_dm(d):
     import warnings
 
@@ -637,11 +787,11 @@ def build_dm(d):
     if d.get("exact_int"):  # whole numbers float64 cannot hold: straight into the integer array
         arr = np.array(d["matrix"], dtype=np.dtype(d["dtypes"][0]))
     else:
-        arr = np.array([[np.nan if x is None else x for x in row] for row in d["matrix"]], dtype=float)
+        arr = np.array([[_CELL[x] if x is None or isinstance(x, str) else x for x in row] for row in d["matrix"]], dtype=float)
     with warnings.catch_warnings():
         warnings.simplefilter("ignore")
         return skc.mkdm(arr, list(d["objectives"]), weights=np.array(d["weights"], dtype=float),
-                        alternatives=list(d["alternatives"]), criteria=list(d["criteria"]),
+                        alternatives=_labels_in(d, "alternatives"), criteria=_labels_in(d, "criteria"),
                         dtypes=[np.dtype(s) for s in d["dtypes"]])
 
 
@@ -664,16 +814,22 @@ def _wtok(w):
     return {"dtype": str(w.dtype), "n": int(w.shape[0]) if w.ndim else -1, "hex": _sha(np.ascontiguousarray(w).tobytes())}
 
 
+def _lab(x):
+    """a label with its type (G.lab): a string is itself, 2019 is `int:2019` - not '2019' -, 1.5 is `float64:...`"""
+    return str(x) if isinstance(x, str) else G.lab(x)
+
+
 def snapshot(dm):
-    """the six parts of `dm.to_dict()` as tokens / plain lists"""
+    """the six parts of the matrix as tokens / plain lists: values, objectives, weights and dtypes from `dm.to_dict()`; the
+    labels, WITH THEIR TYPES, from `dm.alternatives` / `dm.criteria` (what the user of the matrix reads)"""
     d = dm.to_dict()
     return {
         "matrix": _mtok(d["matrix"]),
         "objectives": [int(o) for o in d["objectives"]],
         "weights": _wtok(d["weights"]),
         "dtypes": [str(t) for t in d["dtypes"]],
-        "alternatives": [str(a) for a in d["alternatives"]],
-        "criteria": [str(c) for c in d["criteria"]],
+        "alternatives": [_lab(a) for a in np.asarray(dm.alternatives)],
+        "criteria": [_lab(c) for c in np.asarray(dm.criteria)],
     }
 
 
@@ -709,7 +865,7 @@ def _make_user(spec, idx, record):
             elif key == "objectives":
                 rec[key] = [int(o) for o in v]
             elif key in ("alternatives", "criteria"):
-                rec[key] = [str(x) for x in v]
+                rec[key] = [_lab(x) for x in np.asarray(v)]
         record.append(rec)
         return out
 
@@ -774,6 +930,9 @@ def in_domain(spec, parts):
         return False
     if k == "imputer":
         return m >= 2 and not np.isinf(M).any() and not np.isnan(M).all(axis=0).any()
+    if k == "filter":  # a by-criteria filter only compares: no numeric domain (NaN / inf cells included)
+        crits = [c for c in parts["criteria"] if isinstance(c, str)]
+        return spec["ignore"] or all(c in crits for c, _ in spec["conds"])
     if not np.isfinite(M).all():
         return False
     nonconst = bool((M.max(axis=0) != M.min(axis=0)).all())
@@ -805,9 +964,6 @@ def in_domain(spec, parts):
         return True
     if k == "inverter":
         return spec["cls"] == "NegateMinimize" or bool((M[:, o == -1] != 0).all())
-    if k == "filter":
-        crits = [str(c) for c in parts["criteria"]]
-        return spec["ignore"] or all(c in crits for c, _ in spec["conds"])
     return True
 
 
@@ -837,7 +993,7 @@ def _observe(case):
             made["T"] = mkpipe(*steps, WeightedSumModel()) if use_pipe else steps[0]
         return made["T"]
 
-    obs, res1 = _apply(transformer, case["dm"], case["steps"], record)
+    obs, res1 = _apply(transformer, case["dm"], case["steps"], record, stagewise=bool(case.get("stagewise")))
     if case.get("seq"):
         # the SAME object applied to a second matrix right afterwards
         obs["second"], res2 = _apply(transformer, case["dm2"], case["steps"], record)
@@ -846,7 +1002,25 @@ def _observe(case):
     return obs
 
 
-def _apply(transformer, d, specs, record):
+def _stages(dm, specs):
+    """every step applied BY ITSELF (a fresh object) to the output of the steps before it: one observation per step, each
+    with its own input - the step of a pipeline is a transformer applied to a decision matrix too"""
+    out, cur = [], dm
+    for i, s in enumerate(specs):
+        rec = []
+        try:
+            before = snapshot(cur)
+            nxt = build_step(s, i, rec).transform(cur)
+        except Exception as e:
+            out.append({"err": G.err_name(e), "msg": str(e)[:200]})
+            break
+        out.append({"before": before, "after": snapshot(nxt), "same_object": nxt is cur, "input_after": snapshot(cur),
+                    "user_returned": rec})
+        cur = nxt
+    return out
+
+
+def _apply(transformer, d, specs, record, stagewise=False):
     dm = build_dm(d)
     before = snapshot(dm)
     n0 = len(record)
@@ -874,6 +1048,8 @@ def _apply(transformer, d, specs, record):
     obs["same_object"] = res is dm
     obs["input_after"] = snapshot(dm)
     obs["user_returned"] = record[n0:]
+    if stagewise:
+        obs["stages"] = _stages(dm, specs)
     return obs, res
 
 
@@ -901,7 +1077,10 @@ def requests(case, obs):
         return [{"op": "c10_declared", "family": fam, "target": t} for _, _, fam, t, _, _ in obs["rows"]]
     return [{"op": "c10_frame", "steps": [_model_step(s) for s in case["steps"]],
              "before": [_token(p, o["before"][p]) for p in PARTS], "after": [_token(p, o["after"][p]) for p in PARTS]}
-            for o in _applications(obs) if "err" not in o]
+            for o in _applications(obs) if "err" not in o] + [
+            {"op": "c10_frame", "steps": [_model_step(case["steps"][i])],
+             "before": [_token(p, o["before"][p]) for p in PARTS], "after": [_token(p, o["after"][p]) for p in PARTS]}
+            for i, o in enumerate(obs.get("stages", [])) if "err" not in o]
 
 
 def _applications(obs):
@@ -984,6 +1163,13 @@ def judge(case, obs, replies):
         if o.get("same_as_previous_output"):
             out.append({"kind": "property", "what": f"{lab}: returned the object it had returned for the previous matrix, not a new matrix",
                         "expected": "a new DecisionMatrix", "observed": "the previous output object"})
+    for i, o in enumerate(obs.get("stages", [])):
+        # each step by itself, judged against ITS OWN input (the output of the steps before it)
+        if "err" in o:
+            break
+        one = {"steps": [case["steps"][i]], "pipe": False}
+        lab = f"{label} [step {i}, {_label(one)}, applied by itself to " + ("the input matrix" if i == 0 else f"the output of step(s) 0..{i - 1}") + "]"
+        _judge_one(one, case["dm"], o, next(reps), lab, out)
     return out
 
 
@@ -1142,6 +1328,16 @@ def tags(case, obs):
         cls, dt, shape = case["beyond_float"]
         t.append("beyond-2**53:%s/%s" % (cls, dt))
         t.append("beyond-2**53:" + shape)
+    if case.get("nonfinite"):
+        cls, shape, what = case["nonfinite"]
+        t.append("non-finite-cells-under-filter:Filter%s/%s" % ("" if cls == "Fn" else cls, what))
+        t.append("non-finite-cells-under-filter:" + shape)
+        if "err" not in obs:
+            kept = set(obs["after"]["alternatives"])
+            rows = [r for a, r in zip(case["dm"]["alternatives"], case["dm"]["matrix"]) if a in kept]
+            t.append("non-finite-cells-under-filter:%s" % ("a-surviving-row-has-one" if any(x is None or isinstance(x, str) for r in rows for x in r) else "none-survives"))
+    for nl in case.get("nonstring_labels", []):
+        t.append("non-string-labels:" + nl)
     if case.get("seq"):
         t.append("one-object-two-matrices:" + case["seq"])
         o2 = obs.get("second", {})
@@ -1158,6 +1354,8 @@ def tags(case, obs):
     t.append("changed:" + ("+".join(ch) if ch else "nothing"))
     if any(x is None for row in case["dm"]["matrix"] for x in row):
         t.append("has-missing-cells")
+    if any(isinstance(x, str) for row in case["dm"]["matrix"] for x in row):
+        t.append("has-infinite-cells")
     if len(a["alternatives"]) < len(b["alternatives"]):
         t.append("rows-dropped")
     return t
